@@ -39,6 +39,7 @@ func removeNodeByNodePath(d *Dir, nodePath []string, emptyOnly bool) (err error)
 		if len(lastDir.nodes) != 0 {
 			return goaterr.Errorf("Can not remove empty node")
 		}
+		verifPoint("remove.checked", lastNodeName)
 		return dirNode.removeNodeByName(lastNodeName)
 	}
 	return dirNode.removeNodeByName(lastNodeName)
